@@ -236,6 +236,40 @@ func TestVerif_C17(t *testing.T) {
 				continue
 			}
 		}
+		// hostile candidate: a later input is an output of another asset, the outputs carry the sum
+		if c.Kind == "transfer" && len(c.Ins) > 0 && rng.Intn(8) == 0 {
+			var other *verifgen.Out
+			for _, o := range d.w.Outs {
+				if o.Asset != c.Ins[0].Asset {
+					other = o
+					break
+				}
+			}
+			if other != nil {
+				ins := append(append([]*verifgen.Out{}, c.Ins...), other)
+				total := new(big.Int)
+				for _, o := range ins {
+					total.Add(total, verifgen.UnitsOf(o.Amount))
+				}
+				spec := d.w.Spec(verifgen.Units(total), 2)
+				raw := verifgen.BuildTx(c.Ins[0].Asset, ins, []verifgen.OutSpec{spec}, []byte("mixed-assets"), nil)
+				bad := &verifSDTx{Kind: "transfer", Tx: verifgen.SignMap(raw, ins, verifgen.FirstN(ins)), Specs: []verifgen.OutSpec{spec}}
+				admit := sim.Admit
+				if rng.Intn(2) == 0 {
+					admit = sim.AdmitFinal
+				}
+				if err := admit(bad.Tx, ts); err != nil {
+					r.Count("rejected_mixed-asset_transfer", 1)
+				} else {
+					r.Count("ACCEPTED_mixed-asset_transfer_(C01_territory)", 1)
+					d.w.Remove([]*verifgen.Out{other})
+					flush()
+					batch = []*verifSDTx{bad}
+					flush()
+					continue
+				}
+			}
+		}
 		// hostile candidate on the finalization path: one output listed twice and its amount claimed twice
 		if c.Kind == "transfer" && len(c.Ins) > 0 && rng.Intn(8) == 0 {
 			dup := c.Ins[rng.Intn(len(c.Ins))]
